@@ -265,6 +265,13 @@ class Run:
         chk.case(("dec", tag, tuple(o[:24]), len(o)), nontrivial=True)
         chk.monitor("OnlyDecodingError")
         chk.monitor("ForbiddenRefused" if refused else "FieldsEqualSpec", 0 if (exp_h == UNSPEC) else 1)
+        if exp_h == UNSPEC or (isinstance(exp_b, dict) and exp_b == UNSPEC):
+            # not decided by the standard: note what the implementation does (no verdict beyond OnlyDecodingError)
+            g = got_h if exp_h == UNSPEC else got_b
+            what = "refused" if g == ERR_DEC else ("raised " + g.get("type", "?") if "err" in g else "accepted")
+            u = chk.extra.setdefault("unspecified_inputs", {})
+            k = "%s: %s" % ("DNET=FFFF with DLEN>0" if exp_h == UNSPEC else "octets after a complete %s body" % MT_NAME.get(exp_h.get("mtype")), what)
+            u[k] = u.get(k, 0) + 1
         jh = judge(got_h, exp_h)
         part, mon, got, exp = "header", jh, got_h, exp_h
         if jh is None and "err" not in exp_h and "err" not in got_h:
@@ -334,12 +341,12 @@ def tla_set(xs):
 def grid_cfg(grids, tier, strlen=None, alphabet=None):
     th = tier == "thorough"
     c = {"Grids": tla_set(grids),
-         "MacLens": tla_set([1, 2, 6, 7, 255] if th else [1, 6, 255]),
+         "MacLens": tla_set([1, 2, 6, 7, 255]),
          "Hops": tla_set([0, 1, 254, 255]),
-         "Vendors": tla_set([0, 1, 255, 256, 65535] if th else [0, 65535, 4660]),
+         "Vendors": tla_set([0, 1, 255, 256, 65535]),
          "ListLens": tla_set(range(0, 21)),
          "TableLens": tla_set(range(0, 6)),
-         "BadMacLens": tla_set([1, 2, 6, 7, 255] if th else [1, 6]),
+         "BadMacLens": tla_set([1, 2, 6, 7, 255] if th else [1, 6, 255]),
          "Alphabet": tla_set(alphabet if alphabet is not None else ALPHABET),
          "StrLen": str(strlen if strlen is not None else (3 if th else 2))}
     return "SPECIFICATION Spec\nCONSTANTS\n" + "".join("  %s = %s\n" % kv for kv in c.items()) + \
@@ -706,24 +713,23 @@ def main(tier, seed):
     chk.tlc(res)
     replay_vectors(run, vecs)
     del vecs
+    # every octet string of length <= 2 (all 65 793)
+    res, vecs = run_grid(chk, "strings<=2", ["str"], tier, strlen=2, alphabet=list(range(256)))
+    chk.tlc(res)
+    replay_vectors(run, vecs)
     if th:
-        res, vecs = run_grid(chk, "strings<=2", ["str"], tier, strlen=2, alphabet=list(range(256)))
-        chk.tlc(res)
-        replay_vectors(run, vecs)
+        # length 3: all 65 536 strings with version 1 here, the 16.7 M others in the "ver" grid; plus the class
+        # alphabet to length 3 (which mixes versions, control octets and third octets once more)
         res, vecs = run_grid(chk, "strings=3,version1", ["v1"], tier)
         chk.tlc(res)
         replay_vectors(run, vecs)
         res, vecs = run_grid(chk, "strings<=3,alphabet", ["str"], tier, strlen=3)
         chk.tlc(res)
         replay_vectors(run, vecs)
-    else:
-        res, vecs = run_grid(chk, "strings<=2,alphabet", ["str"], tier, strlen=2)
-        chk.tlc(res)
-        replay_vectors(run, vecs)
     del vecs
 
     # T: recorded calls of the real code, validated by TLC
-    recs, meta = record_calls(run, rng, 6000 if th else 700)
+    recs, meta = record_calls(run, rng, 25000 if th else 2000)
     verdicts = validate_calls(run, recs, meta, "random")
     for r in recs:
         if r["kind"] == "dec" and meta[r["id"]].startswith("mut-") and len(chk.samples) < 6 and r["id"] not in verdicts:
